@@ -561,7 +561,25 @@ impl<'tcx> Cx<'tcx> {
     pub fn const_j(&self, c: &Const<'tcx>, owner: DefId) -> J {
         let tcx = self.tcx;
         match c {
-            Const::Val(v, t) => self.const_value_j(*v, *t),
+            Const::Val(v, t) => {
+                let j = self.const_value_j(*v, *t);
+                // a function item used as a value (`.map(IdleTimeout::try_from)`): record the impl method it resolves to,
+                // like `callee_j` does for direct calls, so that both spellings name the same callee
+                if let TyKind::FnDef(did, args) = t.kind() {
+                    let env = TypingEnv::post_analysis(tcx, owner);
+                    if let Ok(Some(inst)) = Instance::try_resolve(tcx, env, *did, args) {
+                        let rd = inst.def_id();
+                        if rd != *did {
+                            if let J::Obj(mut kv) = j {
+                                kv.push(("fn_resolved".to_string(), J::s(self.path(rd))));
+                                return J::Obj(kv);
+                            }
+                            return j;
+                        }
+                    }
+                }
+                j
+            }
             Const::Unevaluated(uv, t) => {
                 let mut o = J::obj().ks("ty", self.ty_s(*t)).ks("uneval", self.path(uv.def));
                 if uv.promoted.is_some() {
